@@ -3,7 +3,8 @@
    Z, N, positive and nat stay the extracted inductive datatypes. No Extract Constant. *)
 From Coq Require Extraction.
 From Coq Require Import ExtrOcamlBasic.
-From Walleye Require Import Model.TextMove Model.Eval Model.Search Model.TimeControl Model.Uci Spec.Minimax Spec.Chess Spec.Abs Spec.FenPrint.
+From Walleye Require Import Model.TextMove Model.Eval Model.Search Model.TimeControl Model.Uci Spec.Minimax Spec.Chess Spec.Abs Spec.FenPrint
+  Proofs.Preservation.
 
 
 Extraction "walleye_model.ml"
@@ -13,4 +14,5 @@ Extraction "walleye_model.ml"
   legal_moves legal_captures pseudo_moves apply attacked in_check king_sq legal_position is_capture promotes
   is_checkmate is_stalemate mate_in mated_in pt_of_sq sq_of_pt all_sq pget
   root_values negamax negamax_ab get_best_move stable_sort_desc quiesce alpha_beta new_search calculate_time_slice parse_go_command clean_input step run
+  pos_ok1b rep_legalb
   print_fen parse_signed parse_unsigned is_whitespace utf8_len trim_newline split_on.
